@@ -43,6 +43,22 @@ def run_history(chk, uni, drv, rng, stats):
 
     for _ in range(rng.randrange(1, 3)):
         attach()
+    # neighbours: the function may already be instrumented by a long-lived probe on another variable, and the
+    # focus variable may have been probed (and released) before — the stream of THIS probe must not care
+    neighbours = []
+    if rng.random() < 0.5:
+        other = rng.choice([s_ for s_ in ("f0 > x", "f0 > c", "f0 > b", "f1 > b", "f1 > x")
+                            if s_[1] == sel[1] and s_.split(">")[-1].strip() != focus])
+        bg = ptera.Probe(other, env=uni.mod.__dict__)
+        bg.__enter__()
+        neighbours.append(bg)
+        hist.append({"op": "background probe", "sel": other})
+        if rng.random() < 0.7:
+            early = ptera.Probe(sel, env=uni.mod.__dict__)
+            early.__enter__()
+            uni.funs[fi](1)
+            early.__exit__(None, None, None)
+            hist.append({"op": "earlier probe on the same selector, released"})
     n = rng.randrange(5, 16)
     for _ in range(n):
         r = rng.random()
@@ -123,6 +139,8 @@ def run_history(chk, uni, drv, rng, stats):
             st["completed_now"] = st["live"]
             st["live"] = False
     uni.funs[fi](9)      # after deactivation: silence
+    for nb in neighbours:
+        nb.__exit__(None, None, None)
     hist.append({"op": "call", "f": fi, "x": 9})
     model_ops.append({"op": "call", "f": fi})
     for si, st in enumerate(stages):
